@@ -221,7 +221,8 @@ def run(model, col, tier):
     per_compile = {}
     for modname in ("LowerToIR", "GenerateWasm"):
         made = [n for n in ast.walk(comp) if isinstance(n, ast.Call) and last_attr(n) == "GetPass" and modname in unparse(n.func)]
-        per_compile[modname] = bool(made)
+        # (or in a private step of Compile: `self.__LowerToIR(ast)` whose body creates the pass)
+        per_compile[modname] = bool(made) or pipe.mentions(comp, f"{modname}.GetPass")
     procs = [c for c in ast.walk(comp) if isinstance(c, ast.Call) and last_attr(c) == "Process" and isinstance(c.func, ast.Attribute)]
     on_self = [unparse(c.func.value) for c in procs if unparse(c.func.value).startswith(comp.args.args[0].arg + ".")]
     col.check(all(per_compile.values()) and not on_self, "R18.2", f"{COMPILER}::Compile creates lowering/wasm passes per compilation", "GetPass() is called inside Compile", "the lowering / wasm pass (and its context) is not created per compilation", COMPILER, comp)
